@@ -31,7 +31,13 @@ ASSUMPTIONS = [
     "a response with a non-zero error-status must end the operation: normally (status 2 on a continuation request, documented) or with the ErrorResponse subclass; it must never be re-requested",
     "a response without any binding (max-repetitions 0, or scripted) must still end the operation: normally, or with SnmpError for the GETNEXT-based operations (binding-count mismatch)",
 ]
-REQUIRED_CLASSES = {"exception_marker_values": 0.15, "nonadvancing_reachable": 0.25, "bulk=0": 0.02, "empty_response_scripted": 0.15, "error_response_scripted": 0.15, "op=bulkwalk": 0.10, "op=walk": 0.10, "errors=warn": 0.10}
+_REQUIRED_BASE = {"exception_marker_values": 0.15, "nonadvancing_reachable": 0.25, "bulk=0": 0.02, "empty_response_scripted": 0.15, "error_response_scripted": 0.15, "op=bulkwalk": 0.10, "op=walk": 0.10, "errors=warn": 0.10}
+# generator health of the newer case families (quick tier: the thorough tier dilutes them with enumerated units)
+_REQUIRED_QUICK = {'via_wrapper': 0.06}
+
+
+def REQUIRED_CLASSES(tier):
+    return dict(_REQUIRED_BASE, **(_REQUIRED_QUICK if tier == "quick" else {}))
 
 P = (1, 3, 6, 1, 2, 1, 7)
 
